@@ -71,10 +71,8 @@ def rule_depth(G, R):
             R.violation(rule, a, "%s -> %s carries +1 but %s never increments" % (a, b, base), where=where)
         else:
             R.ok(rule, a, "%s -> %s: delta %s" % (a, b, list(d)), where=where, nontrivial=(max(d) > 0))
-    # (4) the four constructs of the statement are all present: parenthesis and `not` both live in lex_simple_expr
-    simple_sites = [r for r in regions if G.name[r[0]] == SIMPLE]
-    R.check(len(simple_sites) >= 2, rule, SIMPLE, "parenthesis and `not` each increment the counter (two sites in lex_simple_expr)",
-            "%d increment sites found" % len(simple_sites))
+    # (4) the constructs of the statement are all present (parenthesis and `not`: see R13-astdepth, which asks each
+    #     Parenthesized/Unary/Quantifier construction to follow a successful increment)
     qsites = [r for r in regions if "lex_quantifier_expr" in G.name[r[0]]]
     R.check(len(qsites) >= 1, rule, "ast::logical_expr::LogicalExpr::lex_quantifier_expr", "any/all increments the counter", str(len(qsites)))
     fsites = [r for r in regions if any(c == LWF for c, _, _ in r[3])]
@@ -196,32 +194,74 @@ RECURSIVE_VARIANTS = {"ast::logical_expr::LogicalExpr::Parenthesized": "parenthe
                       "ast::logical_expr::LogicalExpr::Quantifier": "any/all quantifier"}
 
 
+def _inc_succeeded(S, pc):
+    """does the path condition say that a with_increased_nesting() call returned Ok?"""
+    lits, _ = sem.literals(pc)
+    for a, pol in lits:
+        if not pol:
+            continue
+        if a.kind == "ok":
+            n = sem.peel(a.node)
+            if n.get("k") in ("Call", "MethodCall") and norm(n.get("resolved") or n.get("callee") or "") == INC:
+                return True
+        if a.kind == "is" and a.alts and all(alt and str(alt[0]).startswith("Result::Ok") for alt in a.alts):
+            for v in a.scruts:
+                n = sem.peel(S.resolve(v.node, v.frame).node)
+                if n.get("k") in ("Call", "MethodCall") and norm(n.get("resolved") or n.get("callee") or "") == INC:
+                    return True
+    return False
+
+
 def rule_ast_depth(G, E, R):
+    """every construction of a self-recursive AST node in the parser sits on a path on which with_increased_nesting()
+    has succeeded (in the same function or in the private caller it was split off from)"""
     rule = "R13-astdepth"
-    pe = G.parser_edges()
-    spenders = set()
-    for i, to, d, w in pe:
-        if min(d) >= 1:
-            spenders.add(G.name[i].split("::{closure")[0])
-    n = 0
+    callers = callers_by_name(E)
+    own, inl, where, variant = {}, {}, {}, {}
     for hb in E.hir_list:
         if "body" not in hb:
             continue
         p = norm(hb["path"])
-        if "::tests::" in p or p.endswith("::simplify"):
+        if "::tests::" in p or p.endswith("::simplify") or "{closure" in p or "lex" not in p:
             continue
-        for x in exprs(hb["body"], ("Struct", "Call")):
-            d = norm(x["res"].get("path", "")) if x["k"] == "Struct" else (norm(x.get("callee", "")) if x.get("callee_kind", "").startswith("Ctor") else "")
-            if d in RECURSIVE_VARIANTS and not x.get("x"):
-                n += 1
-                base = p.split("::{closure")[0]
-                if not any(ROOT(base) for ROOT in (lambda b: "lex" in b,)):
-                    # constructions outside the parser (e.g. clones via derive) do not add depth
-                    continue
-                R.check(base in spenders, rule, base, "%s node built only where the nesting budget is spent" % last_seg(d),
-                        "a recursive AST node built without spending nesting budget makes AST depth unbounded by the limit", x["sp"])
+        S = sem.Sem(E, hb)
+        for x in S.sites():
+            n = x.node
+            if n.get("k") not in ("Struct", "Call") or n.get("x"):
+                continue
+            d = norm(n["res"].get("path", "")) if n["k"] == "Struct" else \
+                (norm(n.get("callee", "")) if n.get("callee_kind", "").startswith("Ctor") else "")
+            if d not in RECURSIVE_VARIANTS:
+                continue
+            f = norm(x.frame.h["path"])
+            key = (f, n.get("sp", ""))
+            where[key] = n.get("sp", "")
+            variant[key] = d
+            good = _inc_succeeded(S, x.pc)
+            if x.frame.depth == 0:
+                own[key] = good
+            else:
+                inl.setdefault(key, {})[p] = inl.get(key, {}).get(p, True) and good
+    per_variant = {}
+    for key in sorted(where):
+        f, _ = key
+        d = variant[key]
+        per_variant[d] = per_variant.get(d, 0) + 1
+        ok = own.get(key, False)
+        detail = ""
+        if not ok:
+            cs = {c for c in callers.get(f, ()) if "::tests::" not in c}
+            seen = inl.get(key, {})
+            ok = bool(cs) and cs <= set(seen) and all(seen.values())
+            detail = "callers %s; budget spent before the call in %s" % (sorted(cs), sorted(c for c, g in seen.items() if g))
+        R.check(ok, rule, f, "%s node built only where the nesting budget has been spent" % last_seg(d),
+                "a recursive AST node is built on a path on which with_increased_nesting() has not succeeded: AST depth is "
+                "no longer bounded by the limit. " + detail, where[key])
+    for d, what in RECURSIVE_VARIANTS.items():
+        R.check(per_variant.get(d, 0) >= 1, rule, d, "the parser builds %s nodes (%s)" % (last_seg(d), what),
+                "no construction site found in a lexing function")
     # FunctionCallExpr: built in lex_with_function only, whose every caller spends budget (checked in R13-depth)
-    R.floor(rule, "recursive AST constructions in the parser", n, 3)
+    R.floor(rule, "recursive AST constructions in the parser", len(where), 3)
 
 
 def run(F, R, tier):
